@@ -31,6 +31,7 @@ class BaseEngine:
         trigger_data = TriggerData(
             machine=self.sm,
             event=BoundEvent("__initial__", _sm=self.sm),
+            is_initial=True,
         )
         self.put(trigger_data)
 
